@@ -127,3 +127,4 @@ for d,exp in (("in",0),("out",1)):
 add("C01.server_flaps","VH_c01_server_flaps",SRV,sc+["server/c01.go"],{"params":{"steps":3},"unwind":4200,"harness_s":600},{"params":{"steps":4},"unwind":4200,"harness_s":2400},expect_reach=["advertised","source_lost"],fixed_clock=True,bounds="real BgpServer.handleFSMMessage incl. its PeerDown and Established (initial table transfer) branches and fsm.stateChange: 2 eBGP sources and 1 eBGP target, one prefix, every history of 3 (quick) / 4 events over {announce (symbolic AS) / withdraw from either source, loss of a source's session, flap of the target's session}")
 for asp,nm in ((1,"timers"),(2,"caps")):
     add("C08.open_sent_"+nm,"VH_c08_open_sent",SRV,sc+["server/c08.go"],{"aspect":asp},{"aspect":asp},expect_reach=["end"],bounds="real buildopen / capabilitiesFromConfig / capAddPathFromConfig: local AS 1..2^32-1; "+("hold time 0..65535 symbolic (float64 round trip in the FP theory), capabilities fixed" if asp==1 else "2 families on/off, ADD-PATH receive/send per family, graceful restart on/off per family, restart time symbolic; hold 90")+"; the OPEN is serialised and re-parsed")
+add("C07.collision","VH_c07_collision",SRV,sc+["server/c07.go"],expect_reach=["kept_outgoing","kept_incoming"],bounds="real fsmHandler.opensent with an OPEN on the incoming connection and a completed active open queued at the same time; both orders in which select may serve them; last octet of both BGP identifiers symbolic (local AS below the remote AS)")
